@@ -323,6 +323,7 @@ func genC03(w *World, res *CheckResult) {
 	delete(w.forceInline, "checker.dereference") // only the binary cells execute dereference; the functions below use its contract
 	genCheckerPointer(w, res)
 	genCheckerConditional(w, res)
+	genCheckerUnary(w, res)
 	// static result type of arithmetic: checker.combined against the dynamic result kind of the helpers (cells shared with C14)
 	{
 		tmp := &CheckResult{}
@@ -608,4 +609,113 @@ func kindOfVal(v *Term) *Term {
 		out = Ite(Is(c.ctor, v), BV64(c.kind), out)
 	}
 	return out
+}
+
+// genCheckerUnary: cells of the unary typing rule: for each operand type the
+// static result kind of -x / +x / !x is the dynamic kind of what the VM
+// computes (vm.negate keeps the operand's kind; + pushes the operand; ! a bool).
+func genCheckerUnary(w *World, res *CheckResult) {
+	fn := w.Func("checker.visitor.UnaryNode")
+	neg := w.Func("vm.negate")
+	if fn == nil || neg == nil {
+		res.Obls = append(res.Obls, missingObl("checker.visitor.UnaryNode/exists", "function not found"))
+		return
+	}
+	res.Functions = append(res.Functions, "checker.visitor.UnaryNode")
+	lay := astLayout{w}
+	w.forceInline["checker.dereference"] = true
+	defer delete(w.forceInline, "checker.dereference")
+	vst := fn.Params[0].Type().Underlying().(*types.Pointer).Elem().Underlying().(*types.Struct)
+	errOff := -1
+	for k := 0; k < vst.NumFields(); k++ {
+		if vst.Field(k).Name() == "err" {
+			errOff = fieldLeafOffset(vst, k)
+		}
+	}
+	iface := types.NewInterfaceType(nil, nil)
+	for _, op := range []string{"-", "+", "!"} {
+		for _, t := range c03Universe() {
+			if t.T == nil {
+				continue
+			}
+			if _, named := t.T.(*types.Named); named {
+				continue
+			}
+			cell := fmt.Sprintf("checker.UnaryNode[%s,%s]", op, t.name)
+			// dynamic side
+			var dynKinds []*Term
+			var dynStates []*State
+			x := t.cell("x")
+			switch op {
+			case "-":
+				e := NewExec(w)
+				e.SafeMode = func(*ssa.Function) string { return "panics" }
+				for _, n := range []string{"toInt", "toInt64", "toFloat64", "negate"} {
+					w.forceInline["vm."+n] = true
+				}
+				for _, o := range e.Run(neg, []*Value{{T: iface, L: []*Term{x}}}, NewState(), nil) {
+					if o.Panic == nil {
+						dynKinds = append(dynKinds, kindOfVal(e.boxValue(o.St, o.Res[0])))
+						dynStates = append(dynStates, o.St)
+					}
+				}
+				for _, n := range []string{"toInt", "toInt64", "toFloat64", "negate"} {
+					delete(w.forceInline, "vm."+n)
+				}
+			case "+":
+				dynKinds, dynStates = []*Term{kindOfVal(x)}, []*State{NewState()}
+			case "!":
+				if ctorOf(x) == "VBool" {
+					dynKinds, dynStates = []*Term{BV64(1)}, []*State{NewState()}
+				}
+			}
+			e := NewExec(w)
+			e.SafeMode = func(f *ssa.Function) string { return "panics" }
+			st := NewState()
+			e.paramMode = true
+			vv := e.havocValue(st, fn.Params[0].Type(), "v")
+			e.paramMode = false
+			st.Assume(Not(Eq(vv.One(), NilLoc)))
+			un := FreshPre(st, "unary")
+			AssumeDistinctObjs(st, un, vv.One())
+			e.initFacts(st, fn, e.entryEnv(st, fn, []*Value{vv, {T: fn.Params[1].Type(), L: []*Term{un}}}, nil))
+			child := Fresh("operandnode", SVal)
+			st.Assume(Not(Eq(child, VNil)))
+			st.Store(LocField(un, lay.off("UnaryNode", "Operator")), StrLit(op))
+			st.Store(LocField(un, lay.off("UnaryNode", "Node")), child)
+			st.Store(LocField(vv.One(), errOff), NilLoc)
+			e.CallHook = func(e *Exec, st *State, fr *Frame, cc *ssa.CallCommon, callee *ssa.Function, args []*Value, k func(*State, []*Value)) bool {
+				if shortName(callee) == "checker.visitor.visit" {
+					k(st, []*Value{{T: callee.Signature.Results().At(0).Type(), L: []*Term{t.code()}}})
+					return true
+				}
+				return false
+			}
+			for _, o := range e.Run(fn, []*Value{vv, {T: fn.Params[1].Type(), L: []*Term{un}}}, st, nil) {
+				if o.Panic != nil {
+					e.AddVC(cell+"/result-kind", "post", fn.String(), o.St, True, "the typing rule itself must not fail")
+					continue
+				}
+				rejected := Not(Eq(o.St.Load(LocField(vv.One(), errOff), SLoc), NilLoc))
+				if len(dynKinds) == 0 {
+					// the operation fails on every value of this type: it must be rejected
+					e.AddVC(cell+"/result-kind", "post", fn.String(), o.St, Not(rejected), "an operand type the operation cannot take is rejected")
+					continue
+				}
+				rk := rtKind(o.Res[0].One())
+				for i, dk := range dynKinds {
+					s2 := o.St.Clone()
+					for _, p := range dynStates[i].pc {
+						s2.Assume(p)
+					}
+					e.AddVC(cell+"/result-kind", "post", fn.String(), s2, And(Not(rejected), Not(Eq(rk, dk))), "when accepted, the static result kind is the dynamic kind of the result")
+				}
+			}
+			for _, o := range e.obls {
+				if strings.HasPrefix(o.Name, cell+"/") {
+					res.Obls = append(res.Obls, o)
+				}
+			}
+		}
+	}
 }
